@@ -16,7 +16,7 @@ import pipeline
 import lower
 import cast
 
-UNITS = ['stream', 'base64', 'httpparse', 'net', 'dynbuf', 'values', 'httpwrite', 'transport']
+UNITS = ['stream', 'base64', 'httpparse', 'net', 'dynbuf', 'mime', 'cookie', 'headers', 'httpwrite', 'transport']
 
 
 def units_available():
@@ -143,9 +143,14 @@ def run(pid, tier, seed, work, a, t0):
         dead_ok = (finfo.get('spec') or {}).get('dead_ok', []) + list(p.get('dead_ok', []))
         dead_seen = []
         tool_limits = []
+        # loop-contract instrumentation duplicates loop bodies (first iteration / arbitrary iteration): a marker is reachable
+        # as soon as one of its instances fires
+        fired = set(o['desc'] for o in r['obligations'] if pipeline.classify(o) == 'R' and o['status'] == 'FAILURE')
         for o in r['obligations']:
             c = pipeline.classify(o)
             cnt[c] += 1
+            if c == 'R' and o['status'] != 'FAILURE' and o['desc'] in fired:
+                continue
             if c == 'R':
                 if (o['function'] or '').startswith(r['enforce']) or (o['desc'] or '').startswith('REACH:' + r['enforce']):
                     if o['status'] == 'FAILURE':
@@ -262,8 +267,10 @@ def run(pid, tier, seed, work, a, t0):
         'wall_s': round(wall, 1),
         'violations': len(viol_lines),
     }
-    os.makedirs(os.path.join(ROOT, 'evidence'), exist_ok=True)
-    json.dump(ev, open(os.path.join(ROOT, 'evidence', pid + '.json'), 'w'), indent=1)
+    # evidence is only written for runs against /repo itself (mutation experiments use VS_REPO=<scratch worktree>)
+    evdir = os.path.join(ROOT, 'evidence') if cast.REPO == '/repo' else os.path.join(os.environ.get('VS_TMP', '/tmp'), 'vs_evidence_mut')
+    os.makedirs(evdir, exist_ok=True)
+    json.dump(ev, open(os.path.join(evdir, pid + '.json'), 'w'), indent=1)
 
     for k, os_ in known_hits.values():
         print('KNOWN-FINDING: property=%s %s [%s; %d failed obligation(s) in proof %s]' % (pid, k['what'], k['id'], len(os_), k['proof']))
